@@ -123,7 +123,7 @@ func hitByAncestorOp(l layer, f int) bool {
 
 // emitNoPURL: generate cases whose extractor returns a nil PURL. Off until the repair is in /repo: on the unrepaired
 // tree PopulateLayerDetails dereferences the nil PURL and ScanContainer panics (fix-c17-cov/2.diff).
-const emitNoPURL = false
+const emitNoPURL = true
 
 // saex: a standalone extractor that reports one package ("sa", with a location). It is not a filesystem extractor, so
 // the trace cannot attribute its package: LayerDetails stay unset.
